@@ -1,14 +1,16 @@
 from checks import _level2
 from oracles import level2 as oracle
 
-GEN = []
+GEN = ["Tol"]
 LEAN_TARGETS = ["MagpyVerif.Props.C05"]
 PROPS = ["MagpyVerif.Props.C05"]
 NOT_SHOWN = {
  "03": ["full getBH pipeline covariance with Sensor observers (proved for position observers; sensors are C04)"],
  "04": ["pixel_agg reductions other than sum/min/max (mean, median, std, ...) are not modelled; the theorem holds for any reduction function of the pixel list, the stream exercises sum/min/max"],
- "05": ["linearity of the Cylinder, CylinderSegment and TriangularMesh kernels in their excitation (not ported to the real carrier; oracle only); proved: the marshalling "
-        "preserves linearity for any F, and the Dipole, Sphere (C12), segment, Circle, Cuboid, Triangle, Tetrahedron kernels are linear"],
+ "05": ["linearity of the CylinderSegment and TriangularMesh kernels in their excitation (not ported to the real carrier; oracle only); proved: the marshalling "
+        "preserves linearity for any F, and the Dipole, Sphere (C12), segment, Circle, Cuboid, Triangle, Tetrahedron kernels are linear",
+        "Cylinder (ported BHJM_magnet_cylinder, single-row path, cel0 opaque): full linearity in the polarization IS proved (`cylinder_linear_in_polarization`, whenever "
+        "the three evaluations return; plus proportionality and transversal + axial split as equalities of optional results); not modelled: the vectorised celv path (n >= 10 rows)"],
  "06": ["batch-level control flow inside kernels (rowwise_c: trimesh grouping, segment early return, cel n<10) — kernel model pending",
         "np.squeeze / np.expand_dims / reshape semantics are assumed as modelled (shape list + unchanged row-major data), exercised by the stream"],
 }["05"]
